@@ -27,8 +27,9 @@ Tick == /\ Alive
         /\ K' = StepTick(K).K
         /\ hist' = Append(hist, <<"t">>)
 Next == (\E c \in EnvKeys : \E k \in Kinds : In(k, c)) \/ Tick
-\* all panicked states of one site are one state: one witness (the first reached, breadth first) per site
-View == IF K.L.panic # "" THEN <<K.L.panic>> ELSE <<K>>
+\* all panicked states of one site that begin with the same event are one state: one witness (the first reached,
+\* breadth first) per site and first event
+View == IF K.L.panic # "" THEN <<K.L.panic, Head(hist)>> ELSE <<K>>
 PanicProbe == K.L.panic = "" \/ PrintT(<<"PANIC", ToJson([h |-> hist, site |-> K.L.panic])>>)
 ====
 '''
@@ -50,14 +51,21 @@ def instances(tier):
          "kbd": "(defsrc a b c d)\n(deflayer l0 (tap-dance 2 ()) (tap-dance-eager 2 ()) (multi rpt-any) (fork rpt-any x (lsft)))\n",
          "alt_kbd": ["(defsrc a b c d)\n(deflayer l0 (tap-dance 2 (x)) (tap-dance-eager 2 (x)) (multi rpt-any) (fork rpt-any x (lsft)))\n"],
          "caps": {}},
-        {"name": "wdelay", "depth": (6, 8), "keys": ["a", "b", "c"], "qkeys": ["a", "c"], "kinds": ["d", "u"],
-         "kbd": "(defcfg rapid-event-delay 2)\n(defsrc a b c)\n(deflayer l0 (tap-hold 0 2 x y) (tap-hold 0 2 z w) (one-shot 2 lsft))\n",
-         "caps": {"u16max": 3},
-         "scaled": {"tick": 21845,
-                    "kbd": "(defcfg rapid-event-delay 43690)\n(defsrc a b c)\n(deflayer l0 (tap-hold 0 43690 x y) (tap-hold 0 43690 z w) (one-shot 43690 lsft))\n"}},
+        # u16 scaled to 7 and the timeouts to 4, so that only a press held back for a whole timeout (not the one or two
+        # ticks every event spends in the queue) overflows `delay + ticks`: the witnesses stay witnesses at the real scale
+        {"name": "wdelay", "depth": (11, 12), "keys": ["a", "b"], "qkeys": ["a"], "kinds": ["d", "u"],
+         "kbd": "(defcfg rapid-event-delay 4)\n(defsrc a b c)\n(deflayer l0 (tap-hold 0 4 x y) (tap-hold 0 4 z w) (one-shot 4 lsft))\n",
+         "caps": {"u16max": 7, "since": 7},
+         "scaled": {"tick": 9363,
+                    "kbd": "(defcfg rapid-event-delay 37452)\n(defsrc a b c)\n(deflayer l0 (tap-hold 0 37452 x y) (tap-hold 0 37452 z w) (one-shot 37452 lsft))\n"}},
         {"name": "wrapping", "depth": (5, 7), "keys": ["a", "b", "c"], "kinds": ["d", "u", "p"],
          "kbd": "(defsrc a b c)\n(deflayer l0 (macro x y) (one-shot 2 lsft) (multi lctl lalt))\n", "caps": {}},
     ]
+    # chords v2 (spec/ChordsV2.tla, real capacities 16 / 10 / 32): a flood of one key without releases reaches the
+    # 16-entry scratch list; with releases (thorough) the drain queue
+    I.append({"name": "chv2_flood", "depth": (18, 19), "keys": ["a"], "kinds": ["d"] if tier == "quick" else ["d", "u"],
+              "kbd": "(defcfg concurrent-tap-hold yes)\n(defsrc a b)\n(deflayer l0 a b)\n(defchordsv2 (a b) x 3 all-released ())\n",
+              "caps": {"queue": 32}})
     if tier == "quick":
         for i in I:
             i["keys"] = i.get("qkeys", i["keys"])
@@ -108,12 +116,15 @@ def check_arb(inst, wd, workers, timeout, depth):
         raise ToolError("TLC produced no result on %s (rc=%s, see %s)" % (mod, r["rc"], r["out"]))
     pf = os.path.join(wd, mod + ".panic.ndjson")
     n = extract_prints(r["out"], "PANIC", pf)
-    sites = {}
+    sites = {}          # site -> witnesses (one per first event), shortest first
     for line in open(pf):
         w = json.loads(line)
-        s = sites.get(w["site"])
-        if s is None or len(w["h"]) < len(s):
-            sites[w["site"]] = w["h"]
+        ws = sites.setdefault(w["site"], [])
+        if w["h"] not in ws:
+            ws.append(w["h"])
+    for ws in sites.values():
+        ws.sort(key=len)
+        del ws[6:]
     states, generated = r["distinct"] or 0, r["generated"] or 0
     if timed_out:       # last progress line
         for line in open(r["out"], errors="replace"):
@@ -166,31 +177,36 @@ def capacity_submodel(tier, seed, wd, acc, run_all, mkjob, notes):
         out["generated"] += r["generated"]
         out["instances"].append({k: r[k] for k in ("name", "states", "generated", "depth", "depth_bound", "complete", "panic_states", "tlc_wall_s", "wall_s")}
                                 | {"sites": sorted(r["sites"])})
-        for site, h in r["sites"].items():
-            scripts = [("model-witness", hist_steps(h))]
-            sc = inst.get("scaled")
-            cfg2 = None
-            if sc:
-                if sc.get("kbd"):
-                    cfg2 = (sc["kbd"], hist_steps(h, sc.get("rep", 1), sc.get("tick", 1)))
-                else:
-                    scripts.append(("model-witness-scaled", hist_steps(h, sc.get("rep", 1), sc.get("tick", 1))))
-            jobs.append((inst["name"], site, h, mkjob("m:%s:%s" % (inst["name"], site), inst["kbd"], scripts, "capacity:" + inst["name"])))
-            if cfg2:
-                jobs.append((inst["name"], site, h, mkjob("m:%s:%s:scaled" % (inst["name"], site), cfg2[0],
-                                                          [("model-witness-scaled", cfg2[1])], "capacity:" + inst["name"])))
+        for site, hs in r["sites"].items():
+            for wi, h in enumerate(hs):
+                scripts = [("model-witness", hist_steps(h))]
+                sc = inst.get("scaled")
+                cfg2 = None
+                if sc:
+                    if sc.get("kbd"):
+                        cfg2 = (sc["kbd"], hist_steps(h, sc.get("rep", 1), sc.get("tick", 1)))
+                    else:
+                        scripts.append(("model-witness-scaled", hist_steps(h, sc.get("rep", 1), sc.get("tick", 1))))
+                jobs.append((inst["name"], site, h, mkjob("m:%s:%s:%d" % (inst["name"], site, wi), inst["kbd"], scripts, "capacity:" + inst["name"])))
+                if cfg2:
+                    jobs.append((inst["name"], site, h, mkjob("m:%s:%s:%d:scaled" % (inst["name"], site, wi), cfg2[0],
+                                                              [("model-witness-scaled", cfg2[1])], "capacity:" + inst["name"])))
     res = run_all([j[3] for j in jobs], wd, "cap")
     byid = {j[3]["id"]: j[3] for j in jobs}
     acc.add(res, byid)
     rep = {}
     for name, site, h, j in jobs:
         key = "%s/%s" % (name, site)
-        e = rep.setdefault(key, {"site": site, "instance": name, "model_history": h, "reproduced": False, "impl": []})
+        e = rep.setdefault(key, {"site": site, "instance": name, "model_history": h, "witnesses": 0, "reproduced": False, "impl": []})
+        if not j["id"].endswith(":scaled"):
+            e["witnesses"] += 1
         for r in res:
             if r["j"] == j["id"]:
-                e["impl"].append({"cls": r.get("cls"), "r": r["r"], "loc": (r.get("loc") or "")[-80:]})
-                if r["r"] not in ("ok", "reject"):
+                if len(e["impl"]) < 8:
+                    e["impl"].append({"cls": r.get("cls"), "r": r["r"], "loc": (r.get("loc") or "")[-80:]})
+                if r["r"] not in ("ok", "reject") and not e["reproduced"]:
                     e["reproduced"] = True
+                    e["model_history"] = h
     out["sites_in_model"] = rep
     out["sites_found"] = len(rep)
     out["sites_reproduced_on_code"] = sum(1 for e in rep.values() if e["reproduced"])
